@@ -1,10 +1,11 @@
 (* Comp/SimCheck.v — vocabulary for the NormalizeBlocks stage (C01) and the parent-pointer
    invariants (C20): observational equivalence of two rooted block graphs, reachability, the
-   decidable side conditions under which [normalize] is proved correct for ALL graphs
-   ([norm_pre_check], with its soundness proof here), and the candidate repairs of
-   TealBlock.NormalizeBlocks as variants of the SAME pass bodies ([gbody1]/[gbody2] are the bodies of
-   Comp/Passes.v with the edge-replacement function and the two pass-2 switches as parameters;
-   [gnormalize_faithful] shows by [reflexivity] that the faithful instance IS [normalize]). *)
+   decidable side conditions under which [normalize] is proved correct for ALL graphs, and the
+   pass bodies of Comp/Passes.v with the edge-replacement function and the two pass-2 switches as
+   parameters ([gbody1]/[gbody2]): [gnormalize_faithful] shows by [reflexivity] that the instance
+   (replace_outgoing, fixstart, skipself) IS the current [normalize]; the other instances are the
+   code as it was before the repair 39fa261 of /repo ([normalize_pinned]) and the two partial
+   repairs, kept for the historical refutations. *)
 From Coq Require Import List Arith NArith String Bool Lia.
 From PV Require Import Base.Bytes AVM.Syntax AVM.Machine Src.Expr Src.Denote
   Comp.Blocks Comp.Lower Comp.Passes Comp.GraphSem.
@@ -60,13 +61,42 @@ Proof.
   - rewrite W in E by exact L. discriminate.
 Qed.
 
+(* a conditional block has both branches: decidable on the allocated ids *)
+Definition full_ok (b : block) : bool :=
+  match b with
+  | BCond _ (Some _) (Some _) => true
+  | BCond _ _ _ => false
+  | BSimple _ _ => true
+  end.
+
+Definition cond_full_check (g : graph) : bool :=
+  forallb (fun i => match g_blk g i with Some b => full_ok b | None => true end) (seq 0 (g_next g)).
+
+Lemma full_ok_sound b : full_ok b = true -> full_b b.
+Proof.
+  destruct b as [o n|o [t|] [f|]]; cbn; intros H; try discriminate; try exact Logic.I.
+  split; discriminate.
+Qed.
+
+Lemma cond_full_check_sound g :
+  (forall i, g_next g <= i -> g_blk g i = None) -> cond_full_check g = true -> cond_full g.
+Proof.
+  intros W H i b E. unfold cond_full_check in H. rewrite forallb_forall in H.
+  destruct (Nat.lt_ge_cases i (g_next g)) as [L|L].
+  - specialize (H i). rewrite E in H. apply full_ok_sound. apply H. apply in_seq. lia.
+  - rewrite W in E by exact L. discriminate.
+Qed.
+
 (* ---- the pass bodies with the edge replacement as a parameter ---- *)
-(* candidate repair of TealConditionalBlock.replaceOutgoing: [if ... if] instead of [if ... elif] *)
-Definition replace_outgoing_both (b : block) (old new : id) : block :=
+(* TealConditionalBlock.replaceOutgoing as it was before the repair: [if ... elif], a conditional
+   block replaces the true edge, ELSE the false edge *)
+Definition replace_outgoing_elif (b : block) (old new : id) : block :=
   match b with
   | BSimple o n => if opt_id_is n old then BSimple o (Some new) else b
   | BCond o t f =>
-      BCond o (if opt_id_is t old then Some new else t) (if opt_id_is f old then Some new else f)
+      if opt_id_is t old then BCond o (Some new) f
+      else if opt_id_is f old then BCond o t (Some new)
+      else b
   end.
 
 Section Generic.
@@ -126,19 +156,21 @@ Section Generic.
     norm_iter (gbody2 fixstart skipself) fuel g1 s1 [s1] [s1].
 End Generic.
 
+(* the current code = both-branch replacement, start moved, empty self-loop left alone *)
 Lemma gbody1_faithful g s b : gbody1 replace_outgoing g s b = norm_body1 g s b.
 Proof. reflexivity. Qed.
-Lemma gbody2_faithful g s b : gbody2 replace_outgoing false false g s b = norm_body2 g s b.
+Lemma gbody2_faithful g s b : gbody2 replace_outgoing true true g s b = norm_body2 g s b.
 Proof. reflexivity. Qed.
-Lemma gnormalize_faithful g s : gnormalize replace_outgoing false false g s = normalize g s.
+Lemma gnormalize_faithful g s : gnormalize replace_outgoing true true g s = normalize g s.
 Proof. reflexivity. Qed.
 
-(* the one-line repair: pass 2 moves [start] to the successor of a by-passed start block *)
-Definition normalize_fixed : graph -> id -> graph * id := gnormalize replace_outgoing true false.
-(* + replaceOutgoing re-points BOTH branches *)
-Definition normalize_fixed2 : graph -> id -> graph * id := gnormalize replace_outgoing_both true false.
-(* + an empty block that is its own successor is not by-passed *)
-Definition normalize_fixed3 : graph -> id -> graph * id := gnormalize replace_outgoing_both true true.
+(* HISTORICAL variants (the code before the repair 39fa261 of /repo, and the partial repairs) *)
+(* the pinned code: [elif] replacement, [if block is start: start = block] (a no-op) *)
+Definition normalize_pinned : graph -> id -> graph * id := gnormalize replace_outgoing_elif false false.
+(* hunk A only: pass 2 moves [start] to the successor of a by-passed start block *)
+Definition normalize_startfix : graph -> id -> graph * id := gnormalize replace_outgoing_elif true false.
+(* hunks A+B: + replaceOutgoing re-points BOTH branches; an empty self-loop is still by-passed *)
+Definition normalize_noskip : graph -> id -> graph * id := gnormalize replace_outgoing true false.
 
 (* ---- incoming lists ---- *)
 (* what validateTree asserts: every edge out of a block reachable from [s] finds its source exactly
@@ -154,3 +186,16 @@ Definition inc_covers (g : graph) (s : id) : Prop :=
 Definition inc_exact (g : graph) (s : id) : Prop :=
   forall b, reach g s b ->
     NoDup (g_inc g b) /\ (forall p, In p (g_inc g b) <-> (reach g s p /\ In b (out_of g p))).
+
+(* ---- a decidable certificate for one routine ---- *)
+(* the side conditions of [normalize_correct] (Proofs/NormalizeCorrect.v), all computable on the graph
+   the compiler holds right before NormalizeBlocks: conditional blocks have both branches,
+   validateTree's assertion (the very check the compiler runs at that point; a failure there is an
+   AssertionError, C20), no edge registered into the start block.
+   [norm_cert_sound : wf g -> norm_cert g s = true -> normalize g s = (g', s') -> equivalence]. *)
+Definition norm_cert (g : graph) (s : id) : bool :=
+  cond_full_check g && validate_tree g s && match g_inc g s with [] => true | _ :: _ => false end.
+
+(* the stronger certificate the pinned code needed (two DIFFERENT branches) *)
+Definition norm_cert_pinned (g : graph) (s : id) : bool :=
+  norm_pre_check g && validate_tree g s && match g_inc g s with [] => true | _ :: _ => false end.
